@@ -39,3 +39,23 @@ package criteria_omission
 //@   ensures [same_alternatives] len(result.DMP.ConsideredAlternatives) == len(current.ConsideredAlternatives) && len(result.DMP.NotConsideredAlternatives) == len(current.NotConsideredAlternatives)
 //@             && (forall i int :: 0 <= i && i < len(current.ConsideredAlternatives) ==> model.restrictedTo(result.DMP.ConsideredAlternatives[i], current.ConsideredAlternatives[i], result.DMP.Criteria))
 //@             && (forall i int :: 0 <= i && i < len(current.NotConsideredAlternatives) ==> model.restrictedTo(result.DMP.NotConsideredAlternatives[i], current.NotConsideredAlternatives[i], result.DMP.Criteria))
+
+// the bias takes ordering and split condition exactly as the shared parsers give them (no defaults of its own)
+//@ func parseProps
+//@   property C15 C20
+//@   ensures [ordering_as_requested] result0 != nil && result0.Ordering == (decoded_has(*props, "Ordering") ? decoded_str(*props, "Ordering") : "")
+//@   ensures [split_as_requested] result1 != nil && result1.Ratio == (decoded_has(*props, "Ratio") ? decoded_real(*props, "Ratio") : 0.0)
+//@             && result1.Min == (decoded_has(*props, "Min") ? decoded_int(*props, "Min") : 0)
+//@             && result1.Max == (decoded_has(*props, "Max") ? decoded_int(*props, "Max") : 9223372036854775807)
+
+// the registered object holds exactly the collaborators it was built with, each in its own role
+//@ func NewCriteriaOmission
+//@   property C15 C20 C09
+//@   panics_iff [no_orderings] len(omissionResolvers) == 0
+//@   ensures [wired_as_given] result != nil && fresh(result) && result.omissionResolvers == omissionResolvers
+
+// ---- wire format: the JSON names under which requests are read and responses are written (struct tags; encoding/json
+// itself is outside the verified code).  A renamed or omitempty field changes what a client sees without changing any Go value.
+//@ wire CriteriaOmissionResult
+//@   property C01 C15 C20
+//@   json OmittedCriteria=omittedCriteria
